@@ -74,7 +74,23 @@ func init() {
 		}
 		return args[0]
 	}
-	ext[pk+"Yield"] = func(fr *frame, args []value) value { Sched.point(); return nil }
+	ext[pk+"Yield"] = func(fr *frame, args []value) value { Sched.yield(); return nil }
+	ext["reduction.dev/reduction/util/verifhook.Point"] = func(fr *frame, args []value) value {
+		name := cstr(args[0])
+		hookArrivals[name]++
+		me := hookArrivals[name]
+		Sched.hookPoint(name)
+		hookPasses[name] = append(hookPasses[name], me)
+		return nil
+	}
+	ext[pk+"ScheduleMode"] = func(fr *frame, args []value) value {
+		// 0 = deterministic, 1 = decisions at hook/yield points only, 2 = every synchronisation operation
+		m := args[0].(int)
+		Sched.explore = m > 0
+		Sched.hooksOnly = m == 1
+		Sched.preemptBound = args[1].(int)
+		return nil
+	}
 	ext[pk+"Quiesce"] = func(fr *frame, args []value) value { Sched.quiesce(); return nil }
 	ext[pk+"ExploreSchedules"] = func(fr *frame, args []value) value {
 		Sched.explore = args[0].(bool)
@@ -117,8 +133,17 @@ func init() {
 	ext["math/rand.Uint32"] = ext["math/rand/v2.Uint32"]
 	ext["math/rand/v2.Uint64"] = rnd(types.Uint64, "u64", func(v uint32) value { return uint64(v) })
 	ext["math/rand.Uint64"] = ext["math/rand/v2.Uint64"]
-	resetHooks = append(resetHooks, func() { randFixed = nil; randPos = 0 })
+	resetHooks = append(resetHooks, func() {
+		randFixed = nil
+		randPos = 0
+		hookArrivals = map[string]int{}
+		hookPasses = map[string][]int{}
+	})
 }
+
+// hook-point bookkeeping for native replays: the order in which arrivals passed each point
+var hookArrivals = map[string]int{}
+var hookPasses = map[string][]int{}
 
 var randFixed []uint32
 var randPos int
